@@ -14,5 +14,9 @@ vcheck.build_go(sorted(set(P["binary"] for P in props.PROPS.values())))
 vcheck.ensure_makefile()
 ok, log = vcheck.make_targets([], timeout=7200)
 print(log[-3000:])
-sys.exit(0 if ok else 1)
+if not ok:
+    # a slice that does not compile fails its own check (each check rebuilds its cone); setup goes on
+    ok2, log2 = vcheck.make_targets(["-k"], timeout=7200)
+    print("setup: some Coq targets failed; continuing")
+sys.exit(0)
 PY
